@@ -1,0 +1,63 @@
+//go:build verif
+
+package fractal
+
+// Lockset contracts for govc (see /verif/DESIGN.md, C17). Comment-only; compiled only with -tags verif.
+// The superior's task state (latest broadcast task, task channel cache) and its collector table are shared between the
+// miner, the connection readers and the subscribing collectors; each is guarded by one mutex.
+
+//@ type LocalSuperior protects latestTask reads held[addr(this.taskCacheLock)] writes held[addr(this.taskCacheLock)]
+//@ type RemoteSuperior protects latestTask reads held[addr(this.latestTaskLock)] writes held[addr(this.latestTaskLock)]
+//@ type baseSuperior protects collectors reads held[addr(this.l)] || rheld[addr(this.l)] writes held[addr(this.l)]
+
+//@ func (*LocalSuperior).AddTask
+//@   assert-at call Add channel-registered-under-the-task-id-with-the-lock-held: held[addr(ls.taskCacheLock)] && unbox("uuid.UUID", arg1) == lastresult("ID") && arg0 == old(ls.taskCache)
+//@   assert-at call Broadcast registered-before-it-is-sent: !held[addr(ls.taskCacheLock)]
+//@   assert-at call Send registered-before-it-is-sent: !held[addr(ls.taskCacheLock)] && arg2 == collectorID && arg3 == req
+
+//@ func (*LocalSuperior).RemoveTask
+//@   assert-at call Get looked-up-by-the-task-id-under-the-lock: held[addr(ls.taskCacheLock)] && arg0 == old(ls.taskCache) && unbox("uuid.UUID", arg1) == id
+//@   assert-at call Remove unregistered-in-the-same-critical-section-as-the-close: held[addr(ls.taskCacheLock)] && arg0 == old(ls.taskCache) && unbox("uuid.UUID", arg1) == id
+
+//@ func (*LocalSuperior).submitCollectorMsg
+//@   assert-at call Get waiter-looked-up-under-the-lock: held[addr(ls.taskCacheLock)] && arg0 == old(ls.taskCache)
+//@   assert-at call Get waiter-looked-up-by-the-id-the-report-names: unbox("uuid.UUID", arg1) == lastresult("ID")
+//@   assert-at call ID id-of-the-report-itself: arg0 == resp.Msg
+
+//@ func (*LocalSuperior).onTypeMsg
+//@   assert-at call submitCollectorMsg report-passed-on-unmodified-and-tagged-with-its-collector: arg2.CollectorID == cid && arg2.Msg == resp
+
+// sending to a collector runs foreign code; it does not take or release the superior's locks
+//@ func (*baseSuperior).sendRequest
+//@   modifies heap
+
+// ---- entry lock context: the superior's methods are entered without any of its locks
+//@ spec func nolocks() bool = (forall m int :: !held[m] && !rheld[m])
+//@ func (*LocalSuperior).AddTask
+//@   requires lock-entry: nolocks()
+//@ func (*LocalSuperior).RemoveTask
+//@   requires lock-entry: nolocks()
+//@ func (*LocalSuperior).submitCollectorMsg
+//@   requires lock-entry: nolocks()
+//@ func (*LocalSuperior).Subscribe
+//@   requires lock-entry: nolocks()
+//@ func (*RemoteSuperior).Subscribe
+//@   requires lock-entry: nolocks()
+//@ func (*RemoteSuperior).requestProcessor
+//@   requires lock-entry: nolocks()
+//@ func (*baseSuperior).Subscribe
+//@   requires lock-entry: nolocks()
+//@ func (*baseSuperior).Unsubscribe
+//@   requires lock-entry: nolocks()
+//@ func (*baseSuperior).Send
+//@   requires lock-entry: nolocks()
+//@ func (*baseSuperior).Broadcast
+//@   requires lock-entry: nolocks()
+//@ func (*LocalSuperior).onTypeMsg
+//@   requires lock-entry: nolocks()
+//@ func (*LocalSuperior).onReportQualities
+//@   requires lock-entry: nolocks()
+//@ func (*LocalSuperior).onReportProof
+//@   requires lock-entry: nolocks()
+//@ func (*LocalSuperior).onReportSignature
+//@   requires lock-entry: nolocks()
